@@ -73,6 +73,11 @@ class ModuleInfo:
         return ".".join(parts + ([module] if module else []))
 
 
+# {qualified function name: {new local name: recorded name}}: set by the unit runner for a second attempt on an
+# alpha-equivalent copy (pyvc/alpha.py); empty in the first attempt
+ALPHA = {}
+
+
 class Program:
     def __init__(self, root=None):
         self.root = root or REPO
@@ -87,7 +92,11 @@ class Program:
             if os.path.exists(cand):
                 src = open(cand).read()
                 self.sources[cand] = src
-                mi = ModuleInfo(name, cand, ast.parse(src, cand), pkg)
+                tree = ast.parse(src, cand)
+                if ALPHA:
+                    from .alpha import apply as _alpha_apply
+                    _alpha_apply(tree, name, ALPHA)
+                mi = ModuleInfo(name, cand, tree, pkg)
                 self.modules[name] = mi
                 return mi
         raise Unsupported(f"module {name} not found under {self.root}")
